@@ -232,6 +232,15 @@ def one_case(ctx, k):
             variant("stdout", base + ins, [("-", 1)])
             variant("stdout --fasta", base + ["--fasta"] + ins, [("-", 1)], expect_fmt="fasta")
             variant("stdout --fasta cores=2", base + ["--fasta", "-j", "2"] + ins, [("-", 1)], expect_fmt="fasta")
+            if not any(o in base for o in ("-m", "-M", "--untrimmed-output", "--discard-untrimmed", "--discard-trimmed")):
+                # reads that a filter redirects to standard output are reads on standard output, too
+                refm = climon.run(d, base + ["-m", "12", "--too-short-output", "rs.fastq", "-o", "rso.fastq"] + ins, tag="refs", trace=False)
+                if refm.rc == 0:
+                    save = list(ref_holder)
+                    ref_holder[0] = stream(d, "rs.fastq")
+                    variant("stdout-redirect --fasta", base + ["--fasta", "-m", "12", "--too-short-output", "-", "-o", "so.fastq"] + ins, [("-", 1)], expect_fmt="fasta")
+                    variant("stdout-redirect", base + ["-m", "12", "--too-short-output", "-", "-o", "so2.fastq"] + ins, [("-", 1)])
+                    ref_holder[:] = save
             # --fasta is documented for standard output: a named output still follows its name / the input format
             variant("--fasta name=.txt", base + ["--fasta", "-o", "ff.txt"] + ins, [("ff.txt", 1)])
             variant("--fasta name=.dat.gz", base + ["--fasta", "-o", "ff.dat.gz"] + ins, [("ff.dat.gz", 1)])
